@@ -768,7 +768,7 @@ Fixpoint deterministic_family (e : ep) : bool :=
   | E_svd_interface
   | E_initialize_cp | E_parafac | E_nn_parafac | E_nn_parafac_hals | E_constrained_parafac | E_initialize_constrained
   | E_initialize_tucker | E_partial_tucker | E_tucker | E_nn_tucker | E_nn_tucker_hals
-  | E_parafac2 | E_parafac2_init | E_compute_projections | E_rng_free => true
+  | E_parafac2 | E_parafac2_init | E_compute_projections | E_tt_svd | E_rng_free => true
   | E_estimator e' => deterministic_family e'
   | _ => false
   end.
